@@ -276,7 +276,7 @@ package raft
 // this is stated as an obligation at the call.
 //@ view (*leader).checkConfigActions at (*leader).replyTransfer
 //@   nilable t
-//@   requires [C16.reply-clears] !l.transfer.timer.active && l.transfer.respCh == nil && !l.transfer.newTermTimer.active
+//@   requires [C16+C15.reply-clears] !l.transfer.timer.active && l.transfer.respCh == nil && !l.transfer.newTermTimer.active
 //@   requires [C16.actions-on-latest] config == l.configs.Latest
 //@   modifies *
 //@   ensures gcfgchecks == old(gcfgchecks) + 1
@@ -291,7 +291,7 @@ package raft
 //@ func (*transfer).reply
 //@   requires t.timer != nil && t.newTermTimer != nil
 //@   modifies t.task.result, t.task.greplied, t.timer.active, t.respCh, t.newTermTimer.active
-//@   ensures [C16.reply-clears] !t.timer.active && t.respCh == nil && !t.newTermTimer.active
+//@   ensures [C16+C15.reply-clears] !t.timer.active && t.respCh == nil && !t.newTermTimer.active
 //@   ensures [C15.reply-once] t.task != nil ==> t.task.greplied == old(t.task.greplied) + 1 && t.task.result == err
 
 //@ pure XferWF(l *leader) bool = l.Raft != nil && RaftWF(l.Raft) && PoolsInv(l.Raft) && l.transfer.timer != nil && l.transfer.newTermTimer != nil && l.transfer.timer != l.transfer.newTermTimer
